@@ -135,3 +135,10 @@ Example render6_ex : render6 1 = [58; 58; 49]%N /\ render6 0 = [58; 58]%N /\
   render6 (2 ^ 112) = [49; 58; 58]%N /\                                          (* "1::" *)
   render6 (2 ^ 112 + 2 ^ 48 + 1) = [49; 58; 58; 49; 58; 48; 58; 48; 58; 49]%N.     (* "1::1:0:0:1": the leftmost longest run *)
 Proof. repeat split; vm_compute; reflexivity. Qed.
+
+(* different addresses never print the same *)
+Corollary render6_injective a b : (0 <= a < 2 ^ 128)%Z -> (0 <= b < 2 ^ 128)%Z -> render6 a = render6 b -> a = b.
+Proof.
+  intros Ha Hb E. pose proof (render6_parses a Ha) as Pa. pose proof (render6_parses b Hb) as Pb.
+  rewrite E in Pa. rewrite Pa in Pb. inversion Pb. reflexivity.
+Qed.
